@@ -24,7 +24,7 @@ Record INV (s : state) : Prop := mkINV {
   i_sids : NoDup (all_sids s);
   i_lt : forall i, In i (all_sids s) <-> (i < nsched s)%N;
   i_pops : Forall pop_ok (pops s);
-  i_args : dropped s = false -> Forall args_ok (heap s) /\ Forall (fun p => args_ok (p_e p)) (pops s)
+  i_args : Forall args_ok (heap s) /\ Forall (fun p => args_ok (p_e p)) (pops s)
 }.
 
 Lemma init_inv o : INV (init o).
@@ -35,13 +35,13 @@ Qed.
 (* ---- frame: updates that touch neither heap, events, ghost partitions nor lower the counter ---- *)
 Definition same_core (s s' : state) : Prop :=
   heap s' = heap s /\ events s' = events s /\ nsched s' = nsched s /\ pops s' = pops s /\
-  removed s' = removed s /\ dropped s' = dropped s /\ (counter s <= counter s')%N.
+  removed s' = removed s /\ (counter s <= counter s')%N.
 
 Lemma frame_inv s s' : same_core s s' -> INV s -> INV s'.
 Proof.
-  intros (A & B & C & D & E & F & G) [K1 K2 K3 K4 K5 K6 K7].
+  intros (A & B & C & D & E & G) [K1 K2 K3 K4 K5 K6 K7].
   unfold all_sids, hsids, psids, names, keys in *.
-  constructor; unfold all_sids, hsids, psids, names, keys; rewrite ?A, ?B, ?C, ?D, ?E, ?F; auto.
+  constructor; unfold all_sids, hsids, psids, names, keys; rewrite ?A, ?B, ?C, ?D, ?E; auto.
   intros c H. specialize (K3 c H). lia.
 Qed.
 
@@ -56,15 +56,10 @@ Proof. apply frame_inv. unfold same_core; simpl. repeat split; auto. lia. Qed.
 Lemma set_fuelout_inv s : INV s -> INV (set_fuelout s).
 Proof. apply frame_inv. unfold same_core; simpl. repeat split; auto. lia. Qed.
 
-Lemma set_dropped_inv s : INV s -> INV (set_dropped s).
-Proof.
-  intros [K1 K2 K3 K4 K5 K6 K7]. constructor; auto. simpl. discriminate.
-Qed.
-
 (* ---- addEvent ---- *)
 Lemma push_inv f t n av g s :
   INV s -> ~ In n (keys s) -> (forall c, n = Auto c -> (c < counter s)%N) ->
-  (av = g \/ dropped s = true) -> INV (push f t n av g s).
+  av = g -> INV (push f t n av g s).
 Proof.
   intros [K1 K2 K3 K4 K5 K6 K7] Hn Ha Hd.
   constructor; unfold all_sids, hsids, psids, names, keys in *; simpl.
@@ -74,7 +69,7 @@ Proof.
   - constructor; auto. intro H. apply K5 in H. lia.
   - intros i. rewrite K5. lia.
   - exact K6.
-  - intros D. destruct Hd as [->|Hd]; [|congruence]. destruct (K7 D) as [X Y]. split; auto.
+  - subst av. destruct K7 as [X Y]. split; auto.
     constructor; auto. reflexivity.
 Qed.
 
@@ -82,7 +77,7 @@ Definition name_bounded (nm : option name) (s : state) : Prop :=
   forall c, nm = Some (Auto c) -> (c < counter s)%N.
 
 Lemma addEvent_inv f t nm av g s :
-  INV s -> name_bounded nm s -> (av = g \/ dropped s = true) -> INV (fst (addEvent f t nm av g s)).
+  INV s -> name_bounded nm s -> av = g -> INV (fst (addEvent f t nm av g s)).
 Proof.
   intros I Hb Hd. unfold addEvent. destruct nm as [n|].
   - destruct (has_key n (events s)) eqn:E; simpl; auto.
@@ -154,7 +149,7 @@ Proof.
     + eapply Permutation_in; [apply Permutation_sym; exact PS|exact H].
     + eapply Permutation_in; [exact PS|exact H].
   - exact K6.
-  - intros D. destruct (K7 D) as [X Y]. split; auto.
+  - destruct K7 as [X Y]. split; auto.
     rewrite Forall_forall in *. intros e He. apply filter_In in He. apply X. tauto.
 Qed.
 
@@ -167,25 +162,28 @@ Qed.
 Lemma drop_counter n ev' s : counter (drop n ev' s) = counter s.
 Proof. reflexivity. Qed.
 
+(* the entry found by rescheduleEvent carries the arguments it was registered with *)
+Lemma lookup_args_ok n s : INV s -> fst (lookup_args n (heap s)) = snd (lookup_args n (heap s)).
+Proof.
+  intros I. unfold lookup_args. destruct (filter (named n) (heap s)) as [|e l] eqn:F; simpl; auto.
+  assert (H : In e (filter (named n) (heap s))) by (rewrite F; left; auto).
+  apply filter_In in H. destruct (i_args _ I) as [X _]. rewrite Forall_forall in X. apply X. tauto.
+Qed.
+
 Lemma reschedule_inv n t s : INV s -> INV (fst (reschedule n t s)).
 Proof.
   intros I. unfold reschedule.
-  destruct (removeEvent n s) as [s1 [[f [old g]]|e]] eqn:R.
-  2:{ simpl. change s1 with (fst (s1, @Raise (fn * (argv * argv)) e)). rewrite <- R. apply removeEvent_inv; auto. }
-  assert (I1 : INV s1) by (change s1 with (fst (s1, Ok (f, (old, g)))); rewrite <- R; apply removeEvent_inv; auto).
+  pose proof (lookup_args_ok n s I) as LA. destruct (lookup_args n (heap s)) as [av g]. simpl in LA.
+  destruct (removeEvent n s) as [s1 [f|e]] eqn:R.
+  2:{ simpl. change s1 with (fst (s1, @Raise fn e)). rewrite <- R. apply removeEvent_inv; auto. }
+  assert (I1 : INV s1) by (change s1 with (fst (s1, Ok f)); rewrite <- R; apply removeEvent_inv; auto).
   assert (B : name_bounded (Some n) s1).
   { intros c E. inversion E; subst. unfold removeEvent in R.
     destruct (take_key (Auto c) (events s)) as [[f' ev']|] eqn:T; [|discriminate]. inversion R; subst.
     simpl. apply (i_auto _ I). destruct (take_key_some _ _ _ _ T) as [H _].
     apply in_map_iff. eexists. split; [|exact H]. reflexivity. }
-  unfold gen.T18.RESCHED_PASSES_ARGS. rewrite orb_false_r.
-  set (s2 := if argv_empty g then s1 else set_dropped s1).
-  assert (I2 : INV s2) by (unfold s2; destruct (argv_empty g); auto using set_dropped_inv).
-  assert (B2 : name_bounded (Some n) s2) by (unfold s2; destruct (argv_empty g); auto).
-  assert (D : noargs = g \/ dropped s2 = true).
-  { unfold s2. destruct g as [[|] [|]]; simpl; auto. }
-  pose proof (addEvent_inv f t (Some n) noargs g s2 I2 B2 D) as I3.
-  destruct (addEvent f t (Some n) noargs g s2) as [s3 [x|e]]; exact I3.
+  pose proof (addEvent_inv f t (Some n) av g s1 I1 B LA) as I3.
+  destruct (addEvent f t (Some n) av g s1) as [s3 [x|e]]; exact I3.
 Qed.
 
 (* ---- calling functions ---- *)
@@ -206,7 +204,7 @@ Proof.
   destruct (call_user rb u av s) as [s1 r]. simpl in I1.
   destruct (recurs (recur cnt)); simpl; auto.
   pose proof (addEvent_inv (Wrap u p nm av (recur cnt)) (now s1 + p) (option_map Named nm) noargs noargs s1 I1
-                (named_bounded nm s1) (or_introl eq_refl)) as I2.
+                (named_bounded nm s1) eq_refl) as I2.
   destruct (addEvent _ _ _ _ _ s1) as [s2 [x|e]]; exact I2.
 Qed.
 
@@ -215,12 +213,12 @@ Proof.
   induction a; intros s I; simpl; auto.
   - apply tick_inv; auto.
   - pose proof (addEvent_inv (Plain (UF (nreg s) tag ar a)) (now s + dt) (option_map Named nm) av av (bump_reg s)
-                  (bump_reg_inv s I) (named_bounded nm _) (or_introl eq_refl)) as I2.
+                  (bump_reg_inv s I) (named_bounded nm _) eq_refl) as I2.
     destruct (addEvent _ _ _ _ _ (bump_reg s)) as [s2 r]. exact I2.
   - destruct nowf.
     + apply wrapper_call_inv; auto. apply bump_reg_inv; auto.
     + pose proof (addEvent_inv (Wrap (UF (nreg s) tag ar a) period nm av count) (now s + period) (option_map Named nm)
-                    noargs noargs (bump_reg s) (bump_reg_inv s I) (named_bounded nm _) (or_introl eq_refl)) as I2.
+                    noargs noargs (bump_reg s) (bump_reg_inv s I) (named_bounded nm _) eq_refl) as I2.
       destruct (addEvent _ _ _ _ _ (bump_reg s)) as [s2 r]. exact I2.
   - pose proof (removeEvent_inv n s I) as I2. destruct (removeEvent n s) as [s1 r]. exact I2.
   - apply reschedule_inv; auto.
@@ -266,7 +264,7 @@ Proof.
   - constructor; auto. unfold pop_ok; simpl. split; [apply due_lt; auto using table_strict|]. split.
     + eapply Permutation_in; [apply Permutation_sym; exact Hperm|left; auto].
     + apply is_min_spec. exact Hmin.
-  - intros Dr. destruct (K7 Dr) as [X Y].
+  - destruct K7 as [X Y].
     assert (Xe : Forall args_ok (e :: r)) by (eapply Permutation_Forall; eauto).
     inversion Xe; subst. split; auto.
 Qed.
